@@ -57,6 +57,12 @@ def gen_case(rng):
     nested = fmt in ("turtle", "trig", "xml", "json-ld")
     case = dict(kind="spell", fmt=fmt, wseed=rng.randrange(1 << 30), forms=rng.random() < 0.15,
                 content=enc_content(W.gen_content(rng, xml=xml, nested=nested, labels=LBL[fmt], li=xml)))
+    if fmt == "turtle" and rng.random() < 0.25:
+        # twin statements: the same content once under http://ex.org/dir/ and once under http://ex.org/a/b/, with the base moved in between,
+        # so the same relative reference text means two different IRIs in one document
+        a = dec_content(case["content"]); b = W.swap_dir_ns(a)
+        if enc_content(b) != case["content"]:
+            case["content"] = enc_content(a + b); case["cut"] = len(a)
     if fmt in ("nquads", "trig") or (fmt == "json-ld" and rng.random() < 0.3):
         case["graphs"] = []
         for _ in range(rng.randint(0, 2)):
@@ -78,7 +84,7 @@ def render(case):
     if fmt == "nt": text = W.write_nt(rng, [q[:3] for q in quads])
     elif fmt == "nquads":
         rng.shuffle(quads); text = W.write_nt(rng, quads)
-    elif fmt == "turtle": text = W.write_turtle(rng, content)
+    elif fmt == "turtle": text = W.write_turtle(rng, content, cut=case.get("cut"))
     elif fmt == "trig":
         blocks = [(None, content)] + graphs
         if rng.random() < 0.5: rng.shuffle(blocks)
@@ -110,7 +116,8 @@ def parse_as(form, text, fmt, scratch, base=None):
         fd, p = tempfile.mkstemp(suffix=ext, dir=scratch)
         with os.fdopen(fd, "wb") as f: f.write(text.encode("utf-8"))
         try:
-            kw["publicID"] = base or "http://ex.org/dir/doc"
+            # the documents carry their own base wherever they use a relative reference, so the document IRI given here must never show
+            kw["publicID"] = base or FOREIGN
             if form in ("path", "location") and len(text) % 2:
                 kw.pop("format")       # the syntax is then taken from the file name's suffix
             if form == "path": ds.parse(source=pathlib.Path(p), **kw)
@@ -129,6 +136,7 @@ def parse_as(form, text, fmt, scratch, base=None):
     return ds
 
 
+FOREIGN = "http://other.example/elsewhere/doc.x"
 FORMS = ["bytes", "bytesio", "stringio", "source-bytesio", "path", "pathstr", "location", "file-handle", "inputsource"]
 _NONTRIVIAL = re.compile(r"\\[uU]|\\[tbnrf'\"\\_~.!$&()*+,;=/?#@%-]|'''|\"\"\"|<[^:>]*>|\[|\(|;|&#|CDATA|parseType|@vocab|@list|@base|xml:base|# ")
 
@@ -160,7 +168,7 @@ def run_case(case, st=None):
     with warnings.catch_warnings():
         warnings.simplefilter("ignore")
         try:
-            ds = parse_as("str", text, fmt, SCRATCH, base=None)
+            ds = parse_as("str", text, fmt, SCRATCH, base=[None, FOREIGN, None][len(text) % 3])
         except Exception as ex:
             return ("legal-document-rejected", "%s document rejected: %s: %s\n%s" % (fmt, type(ex).__name__, str(ex)[:300], text[:1500]))
         got = snapshot(ds)
